@@ -160,7 +160,20 @@ class OpsDomain(SymDomain):
             if cif is not None:
                 it.rvalue(cif["e"], fr)  # evaluated for effects/bounds; taken as true (DESIGN App. D)
             if self.region is not None:
-                raise AnalysisBroken("nested parallel region at %s" % ir.locstr(s))
+                # a parallel construct met inside a region: with nested parallelism off (the default) the inner team has one
+                # thread, so EVERY thread of the outer team executes the whole construct; with it on, every outer thread
+                # still executes all of it (spread over its inner team).  Either way the body is replicated work of the
+                # outer team: its writes to shared data race with themselves.  Inside a worksharing iteration it would be
+                # that unit's own work with inner units the model does not have.
+                if self.region.cur is not None:
+                    raise AnalysisBroken("parallel region nested in a worksharing loop at %s" % ir.locstr(s))
+                self.region.nested = getattr(self.region, "nested", 0) + 1
+                self.region.nested_sites = getattr(self.region, "nested_sites", []) + [ir.locstr(s)]
+                try:
+                    it.exec(s["body"], fr)
+                finally:
+                    self.region.nested -= 1
+                return
             r = Region(ir.locstr(s), fr.fn["qn"])
             for c in s.get("clauses", []):
                 if c.get("ck") not in ("if", "reduction", "num_threads", "private", "shared", "firstprivate", "default", "schedule", "nowait", "collapse"):
@@ -182,10 +195,13 @@ class OpsDomain(SymDomain):
         if d == "for":
             if self.region is None:
                 raise AnalysisBroken("orphaned omp for at %s" % ir.locstr(s))
+            if getattr(self.region, "nested", 0):
+                it.exec(s["body"], fr)      # binds to the inner (one-thread) team: an ordinary loop of the replicated code
+                return
             self.ws_loop(s, s["body"], fr, nowait=self.clause(s, "nowait") is not None)
             return
         if d == "barrier":
-            if self.region is not None:
+            if self.region is not None and not getattr(self.region, "nested", 0):
                 self.region.group += 1
             return
         if d in ("single", "master"):
@@ -194,6 +210,9 @@ class OpsDomain(SymDomain):
                 it.exec(s["body"], fr)
                 return
             r = self.region
+            if getattr(r, "nested", 0):
+                it.exec(s["body"], fr)      # one thread of the inner one-thread team: every outer thread runs it
+                return
             if r.cur is not None:
                 raise AnalysisBroken("'%s' nested in a worksharing loop at %s" % (d, ir.locstr(s)))
             r.singles = getattr(r, "singles", 0) + 1
